@@ -53,6 +53,10 @@ def run(ctx):
     from .c07 import rule_tracked_dump
     rule_tracked_dump(ctx, r1)
 
+    from .evalhelpers import cached_witness, report_witness, run_command_witness
+    report_witness(r1, "src/gwf/plugins/run.py::run::witness-project", "src/gwf/plugins/run.py:1", cached_witness(ctx, "run", run_command_witness),
+                   "what was accepted is saved on every exit (rejected k-th submission, failing hash-file write); hashes only for accepted submissions")
+
     # ---------------- R2 hash only after accept
     r2 = ctx.rule("R2", "a target's spec hash is recorded only if its submission was accepted")
     rule_hash_after_accept(ctx, r2)
